@@ -11,6 +11,7 @@ import NcVerif.Proofs.XmlText
 import NcVerif.Proofs.XmlDoc
 import NcVerif.Proofs.Builders
 import NcVerif.Proofs.Retrieve
+import NcVerif.Proofs.BuildersOrder
 namespace NcVerif.C07
 open NcVerif NcVerif.Gen NcVerif.OpsSpec NcVerif.XmlText NcVerif.XmlDoc
 
@@ -134,6 +135,14 @@ theorem edit_config_enumerations_and_order (has : Str → Bool) (config : Config
       [nc "config", Builders.s "config", nc "config-text", nc "url"]) := by
   have h' := editConfig_ok has config target dop top eop t hcfg h
   exact ⟨h'.2.2.1, fun x hx => (h'.2.2.2.1 x hx).1, fun e he => (h'.2.2.2.2.1 e he).1, h'.2.2.2.2.2.2⟩
+
+/-- EVERY base-namespace call (edit-config, lock, unlock, get-config, delete-config, copy-config, validate, commit, cancel-commit,
+    discard-changes, kill-session, close-session), for all arguments: what is built carries only the parameter elements RFC 6241
+    defines for that call, each at most once, in the RFC's order (`BuildersOrderP.rfcOrder`). -/
+theorem base_parameter_order (has : Str → Bool) (call : Call) (t : XNode)
+    (hcfg : ∀ c tg d to e, call = .edit (.xml c) tg d to e → Good c) (h : build has call = .ok t) :
+    (paramNames t).Sublist (BuildersOrderP.rfcOrder call) :=
+  BuildersOrderP.parameter_order has call t hcfg h
 
 /-- A datastore argument lands on the wire as the caller gave it: a URL as the text of `<url>`, a name as the
     (only) child element of `<source>` / `<target>`. -/
